@@ -35,6 +35,7 @@ def run(ch: Checker) -> None:
                      'on_request_complete (no handler lets control reach connect_upstream or a normal return); connect_upstream is reached only after the loop ran to exhaustion; '
                      'only on_request_complete calls connect_upstream and only connect_upstream creates/acquires upstream connections', 4)
     ch.rule('C08.4', 'ProxyAuthenticationFailed.response returns a packet with status 407, a Proxy-Authenticate header and Connection: close', 2)
+    ch.rule('C08.11', 'do_intercept() of the plugins is a request-handling hook: the decision that calls it (HttpProxyPlugin._tls_intercept_enabled) is evaluated only in read_from_descriptors, on_client_data and on_request_complete (frozen table: all three act on an admitted request), never on the close / logging path that also runs after a 407', 1)
     ch.rule('C08.6', 'outside a CONNECT tunnel client bytes reach the upstream unparsed (credentials included) only under an upgrade state that is revoked when the upstream answers anything but 101', 1)
     ch.rule('C08.5', 'at every site that queues a rebuilt request to the upstream, del_headers([proxy-authorization, proxy-connection]) ran on that parser on every path '
                      'and build() receives disable_headers=flags.disable_headers', 2)
@@ -456,6 +457,25 @@ def run(ch: Checker) -> None:
         raise AnalysisError('anchor vanished: handle_data has no HttpProtocolException handler')
     ch.import_rules('C07', {'C07.2': 'C08.9'}, 'after the 407 nothing more of the unauthenticated client is read (and shown to the plugins) only if read interest is dropped while the final flush is pending')
     ch.import_rules('C09', {'C09.1': 'C08.7'}, 'the auth plugin is consulted before any user plugin only if the order in which plugins are listed survives loading')
+
+    # ---------------- C08.11 who may ask the plugins whether to intercept (a request-handling hook of every later plugin)
+    allowed11 = {'HttpProxyPlugin.read_from_descriptors', 'HttpProxyPlugin.on_client_data', 'HttpProxyPlugin.on_request_complete'}
+    n11 = 0
+    for fn11 in prog.all_functions('proxy', include_inlined='residual'):       # private helpers are judged as part of the functions they were split off from
+        if fn11.name == '_tls_intercept_enabled' or fn11.module.name.startswith(('proxy.plugin', 'proxy.testing')):
+            continue
+        for x in walk_no_nested(fn11.node):
+            hook = (isinstance(x, ast.Attribute) and x.attr == '_tls_intercept_enabled' and isinstance(x.ctx, ast.Load)) or \
+                (isinstance(x, ast.Call) and isinstance(x.func, ast.Attribute) and x.func.attr == 'do_intercept')
+            if not hook:
+                continue
+            n11 += 1
+            ch.check(fn11.qualname in allowed11, 'C08.11', fn11, x, 'the interception decision is taken where a request has been admitted and an upstream exists (frozen table)',
+                     '%s evaluates the interception decision (%s), which calls do_intercept() of every configured plugin with the request: this function also runs for a connection whose request was '
+                     'rejected with 407 (close / logging path), so a request-handling hook of the plugins behind the auth plugin sees a request that was never admitted' % (fn11.qualname, norm(x)[:50]))
+    if n11 < 1:
+        raise AnalysisError('anchor vanished: nothing evaluates HttpProxyPlugin._tls_intercept_enabled')
+
 
 
 def _is_parts(e: ast.AST, req: str, m: Any, ce: ConstEval) -> bool:
